@@ -122,6 +122,13 @@ class Interp:
             kw = {k.arg: self.ev(k.value) for k in e.keywords if k.arg}
             if name in self.calls:
                 return self.calls[name](*args, **kw)
+            if name is None and isinstance(e.func, ast.Attribute):
+                # a call on the result of another call (ctx.output_expression_list().expression()): ask the symbolic object
+                base = self.ev(e.func.value)
+                meth = getattr(base, e.func.attr, None) if isinstance(base, Obj) else None
+                if callable(meth):
+                    return meth(*args, **kw)
+                raise SymExecError("unknown method %s" % norm(e.func)[:40])
             if name == "len":
                 return len(args[0])
             if name == "range":
